@@ -1,6 +1,7 @@
 import KyupyVerif.Proofs.SubstSome4
 import KyupyVerif.Proofs.ResolveSome
 import KyupyVerif.Proofs.SubstKeys
+import KyupyVerif.Proofs.ResolveStatic
 import KyupyVerif.Props.C10
 import KyupyVerif.Gen.TechImpl
 import KyupyVerif.Proofs.TechImplChk0
@@ -46,8 +47,8 @@ module proves the success itself.
   ORIGINAL circuit `wfNoTrail`, `forksDenseB`; on the library `libOKB` (every implementation satisfies `implSomeOKB`; for the
   built-in libraries `library_impls_ok`); per instance `resolveInstB` = the per-instance clauses `instHypB` (the cell is no port and no
   fork, `noSelfIgnB`, `addFreshB`, `arityOKB`) ON THE CIRCUIT AS IT IS WHEN THE SUBSTITUTION OF THAT INSTANCE STARTS.  `resolveInstB`
-  does NOT contain the success of `substitute` (`none ⇒ true`), so the theorem is not an unfolding; but the per-instance clauses are
-  still evaluated along the model's run, not on the original circuit.  Evaluated per generated resolve case by harness/c10.py
+  does NOT contain the success of `substitute` (`none ⇒ true`), so the theorem is not an unfolding; the per-instance clauses are
+  evaluated along the model's run here — `resolve_isSome_static` (below) derives them from the original circuit.  Evaluated per generated resolve case by harness/c10.py
   (driver `resolveok`, fields 8-14; tags `runSome-hyp:*`; inside the hypotheses a raise of the real code is a broken tie).
   `resolve_two_instances_isSome`: the theorem applied to a host with TWO instances of cells FROM THE GENERATED TABLE (NANGATE `TBUF_X1`,
   which ignores its connected `EN` pin; `ANTENNA`, which has no output and no designated cell: the instance is removed, indices move).
@@ -56,15 +57,26 @@ module proves the success itself.
   a real use inside the hypotheses on which the real code raises is a broken tie.
 * **Theorem** `substitute_kindNames_subset` / `substitute_keys_subset` (transport lemma (3) of the list below, Proofs/SubstKeys.lean): under
   `substSomeHypB` every node of the result carries the (kind, name) of a host node, or (kind of the designated cell, name of the
-  instance), or of an added node: `h'.keys ⊆ h.keys ∪ {re-kinded instance} ∪ addedKeys`.  Not yet used by a whole-run theorem.
-* **Not theorem** (what is missing for a purely STATIC whole-run theorem): transport of the per-instance clauses from the ORIGINAL
-  circuit to the intermediate circuits.  Needed and not exported by `substitute_sem_general` (`SubstGenStmt`): for a host node `d ≠ c`
-  that survives a substitution (through the index map `R`) (1) `ins.length` and, for non-forks, `outs.length` are unchanged
-  (`arityOKB` speaks about list lengths; `SubstGenStmt` gives `inPin k` for every `k` only), (2) a host line that was driven by the
-  substituted cell is afterwards driven by an image of `node_map`, never by another host node (for `noSelfIgnB`), (3) [NOW PROVED, one step: `substitute_keys_subset`] the key set of
-  the result is contained in host keys ∪ `addedKeys` (for `addFreshB`; then a static condition "original keys ++ all added keys of all
-  instances are pairwise different" would do), (4) names of the copies (only kinds are exported).  Port / fork status and the kind of a
-  surviving host node (hence WHICH implementation is looked up) are already exported (`SubstGenStmt`: `io`, kind, name clauses). -/
+  instance), or of an added node: `h'.keys ⊆ h.keys ∪ {re-kinded instance} ∪ addedKeys`.  Used by the whole-run induction of `resolve_isSome_static` (next item).
+* **Theorem** `resolve_isSome_static` / `resolveInstB_of_resolveStaticB` (audit 2, finding 6, open part — now closed; section "fully
+  static whole-run theorem" at the end, Proofs/ResolveStatic.lean, Proofs/SubstTwin.lean, Proofs/DanglingLens.lean, Proofs/SubstLens.lean):
+  a WHOLE `resolve_tlib_cells` run returns a circuit (again `wfNoTrail` with gap-free forks) under hypotheses on the ORIGINAL circuit and
+  the library ONLY: `wfNoTrail`, `forksDenseB`, `libOKB`, and `resolveStaticB` (Model/ResolveStatic.lean; never runs `substitute`) =
+  every library instance of the original circuit is neither port nor fork, satisfies `noSelfIgnB` (no ignored input pin driven by the
+  instance itself) and `arityOKB` (no more pins than ports), and the list "keys of the original nodes ++ keys of all nodes that all
+  substitutions will add (`instAdded`: `<instance>~<internal name>`)" has no duplicate (fresh w.r.t. the original circuit, different
+  inside one instance and between instances).  Proof: `resolveStaticB` ⇒ `resolveInstB` by induction over the key list with the
+  invariant "every original node whose key is still to come is present with the same kind, name, port status, pin-list LENGTHS and no
+  new self-driven input pin (`NSim`); every key of the current circuit is an original key or was added by an instance already
+  processed".  The one-step transport lemmas that were missing are theorems now: `substitute_host_frame` (`StepFrame`) — (1) pin-list
+  lengths of surviving host nodes (`substitute_lenFrame`: `Line.remove()` inside the list is `List.set`, `Node.remove()` renumbers;
+  through `substituteCore` — `connectIns_some` / `core_some` now export `LS` — and through `remove_dangling_nodes`,
+  `removeDangling_twin`), (2) a line driven by a surviving host node was driven by it before (`SubstG.lineDrvHost` + `hostDrv`),
+  (3) `substitute_keys_subset`, (4) names of surviving host nodes (`SubstG.hostNode`) and of the copies (`substitute_kindNames_subset`).
+  Evaluated per generated resolve case by harness/c10.py (driver `resolveok` field 15, tags `runSome-static-hyp:*`): the built-in
+  libraries × generated circuits must be inside (broken tie otherwise), and inside the static hypothesis `resolveInstB`, the model's and
+  the real code's success must hold.
+-/
 namespace KV.C10
 open KV KV.Transform
 
@@ -283,5 +295,71 @@ example : Gen.techImplChunk0.head?.map (fun e => e.2.1) = some "BUFX1" ∧
     Gen.techImplChunk0.head?.map (fun e => substSomeHypB exFeedHost 1 e.2.2) = some true ∧
     (Gen.techImplChunk0.head?.bind fun e => (substitute exFeedHost 1 e.2.2).map (·.kindNames)) =
       some [("input", "i"), ("BUF1", "u"), ("output", "o")] := by decide +kernel
+
+/-! ## fully static whole-run theorem (audit 2, finding 6, open part) -/
+/-- **one substitution keeps every host node other than the cell**: under `substSomeHypB` every node `d ≠ c` of the host is found in
+    the result (at `j'`) with the same kind, name and port status, the same number of input pin slots, the same number of output pin
+    slots unless it is a fork (`Line.remove()` squeezes forks), and an input pin of `j'` that is driven by `j'` itself was driven by
+    `d` itself before (the new driver of a line formerly driven by the cell is never another host node) -/
+theorem substitute_host_frame (h m h' : NNet) (c : Nat) (hyp : substSomeHypB h c m = true) (he : substitute h c m = some h') :
+    ∀ d, d < h.net.nodes.size → d ≠ c → ∃ j', j' < h'.net.nodes.size ∧
+      (h'.net.node j').kind = (h.net.node d).kind ∧ h'.names.getD j' "" = h.names.getD d "" ∧
+      h'.net.io.contains j' = h.net.io.contains d ∧ (h'.net.node j').ins.length = (h.net.node d).ins.length ∧
+      ((h.net.node d).isFork = false → (h'.net.node j').outs.length = (h.net.node d).outs.length) ∧
+      (∀ p l', (h'.net.node j').ins.getD p none = some l' → (h'.net.line l').driver = j' →
+        ∃ l, (h.net.node d).ins.getD p none = some l ∧ (h.net.line l).driver = d) := by
+  intro d hd hdc
+  obtain ⟨j', hj', s⟩ := substitute_stepFrame h m h' c hyp he d hd hdc
+  exact ⟨j', hj', s.kind, s.name, s.io, s.insLen, s.outsLen, s.self⟩
+
+/-- **the static hypothesis implies the per-instance clauses along the run**: `resolveStaticB` (original circuit only) ⇒ `resolveInstB`
+    (clauses on the circuit as it is when each substitution starts) -/
+theorem resolveInstB_of_resolveStaticB (lib : Lib) (h : NNet) (hl : libOKB lib = true) (hw : h.wfNoTrail = true)
+    (hf : forksDenseB h.net = true) (hst : resolveStaticB lib h = true) : resolveInstB lib h.keys h = true :=
+  resolveInstB_of_static lib h hl hw hf hst
+
+/-- **a whole `resolve_tlib_cells` run returns a circuit — hypotheses on the ORIGINAL circuit and the library only**: the circuit is
+    well-formed up to trailing `None`s with gap-free forks, every implementation satisfies `implSomeOKB` (`libOKB`; built-in libraries:
+    `library_impls_ok`), every library instance is neither port nor fork, has no ignored input pin driven by itself, has no more pins
+    than its implementation has ports, and the keys of the original nodes together with the keys of all nodes all substitutions add
+    (`<instance>~<internal name>`) are pairwise different (`resolveStaticB`).  The result satisfies the two invariants again. -/
+theorem resolve_isSome_static (lib : Lib) (h : NNet) (hl : libOKB lib = true) (hw : h.wfNoTrail = true)
+    (hf : forksDenseB h.net = true) (hst : resolveStaticB lib h = true) :
+    ∃ h', resolveCells lib h = some h' ∧ h'.wfNoTrail = true ∧ forksDenseB h'.net = true :=
+  resolve_run_some lib hl h.keys h hw hf (resolveInstB_of_static lib h hl hw hf hst)
+
+/-- two instances `u`, `v` of a cell WITH internal nodes (`exImpl` of Props/C10.lean: 2 forks + NAND2 + OR2 are added per instance, the
+    instance becomes the `INV1`), the output of `u` feeding `v` -/
+def exLib3 : Lib := [("AOCELL", exImpl)]
+def exHost3 : NNet :=
+  { net := { nodes := #[⟨"input", [], [some 0]⟩, ⟨"input", [], [some 1]⟩, ⟨"input", [], [some 2]⟩,
+                        ⟨"AOCELL", [some 0, some 1], [some 3, some 4]⟩, ⟨"AOCELL", [some 4, some 2], [some 5, some 6]⟩,
+                        ⟨"output", [some 3], []⟩, ⟨"output", [some 5], []⟩, ⟨"output", [some 6], []⟩],
+             lines := #[⟨0, 0, 3, 0⟩, ⟨1, 0, 3, 1⟩, ⟨2, 0, 4, 1⟩, ⟨3, 0, 5, 0⟩, ⟨3, 1, 4, 0⟩, ⟨4, 0, 6, 0⟩, ⟨4, 1, 7, 0⟩],
+             io := [0, 1, 2, 5, 6, 7] },
+    names := #["a", "b", "c", "u", "v", "z", "y", "q"] }
+
+/-- hypotheses of `resolve_isSome_static` on `exHost3` (two instances, 4 added nodes each) and on `exHost2` (table cells `TBUF_X1`,
+    which ignores a connected pin, and `ANTENNA`, which is removed); the added keys; the result -/
+example : libOKB exLib3 = true ∧ exHost3.wfNoTrail = true ∧ forksDenseB exHost3.net = true ∧ resolveStaticB exLib3 exHost3 = true ∧
+    instAdded exLib3 exHost3 3 = [("u~A", true), ("u~X", true), ("u~T", false), ("u~Y", false)] ∧
+    instAdded exLib3 exHost3 4 = [("v~A", true), ("v~X", true), ("v~T", false), ("v~Y", false)] ∧
+    resolveStaticB exLib2 exHost2 = true ∧
+    (resolveCells exLib3 exHost3).map (fun r => (r.wfNoTrail, r.net.nodes.size, r.net.lines.size)) = some (true, 16, 17) := by
+  decide +kernel
+/-- `resolveStaticB` fails where the real code raises: a node of the original circuit carries the name of a node the first
+    substitution adds (`u~T`); two instances with the same name (their added nodes clash; already `wfNoTrail` fails); an instance
+    with more input pins than the implementation has ports -/
+example : resolveStaticB exLib3 { exHost3 with names := #["a", "b", "c", "u", "v", "z", "y", "u~T"] } = false ∧
+    resolveStaticB exLib3 { exHost3 with names := #["a", "b", "c", "u", "u", "z", "y", "q"] } = false ∧
+    resolveStaticB exLib2
+      { exHost2 with net := { exHost2.net with nodes := exHost2.net.nodes.modify 4 fun n => { n with ins := [some 3, none] } } } = false := by
+  decide +kernel
+/-- … and on an instance whose output drives its own IGNORED input pin (`TBUF_X1` ignores `EN`; the real code calls `Line.remove()` on a
+    line it still holds in `node_out_lines`): the circuit is well-formed with gap-free forks, `instStaticB` fails at `noSelfIgnB` -/
+example : let h : NNet := { net := { nodes := #[⟨"input", [], [some 0]⟩, ⟨"TBUF_X1", [some 0, some 1], [some 1]⟩],
+                                     lines := #[⟨0, 0, 1, 0⟩, ⟨1, 0, 1, 1⟩], io := [0] }, names := #["a", "u"] }
+    h.wfNoTrail = true ∧ forksDenseB h.net = true ∧ instStaticB exLib2 h 1 = false ∧ resolveStaticB exLib2 h = false := by
+  decide +kernel
 
 end KV.C10
